@@ -39,6 +39,9 @@ Inductive stm0 :=
 | SCsrCell (row col ax zi fi : ix) (* _csrspectrum[row][col] = k_csr(cutoff, _axis_freq[ax], _impedance[zi], _formfactor[fi]) *)
 | SCsrAcc (dst row col : ix).      (* _csrintensity[dst] += delta * _csrspectrum[row][col] *)
 
+(** the four work buffers of the FFTW path (set-up facts of Gen_EField.v) *)
+Inductive wbuf := Bbp | Bff | Bwl | Bwp.
+
 Inductive stm1 := S0 (s : stm0) | SFor1 (bound : ix) (body : list stm0).
 Inductive stm2 := S1 (s : stm1) | SFor2 (bound : ix) (body : list stm1).
 
